@@ -190,11 +190,13 @@ func (c *connection) onProcess(onConnect OnConnect, onRequest OnRequest) (proces
 				return
 			}
 			// cannot use recover() here, since we don't want to break the panic stack
-			c.unlock(processing)
 			if c.IsActive() {
+				c.unlock(processing)
 				c.Close()
 			} else {
-				c.closeCallback(false, false)
+				// the connection has been closed while the task was running: the task still
+				// holds processing (nobody else can run the callbacks) and never releases it.
+				c.closeCallback(false, c.status(closing) == user)
 			}
 		}()
 		// trigger onConnect first
